@@ -1,8 +1,32 @@
 package main
 
 import (
-	_ "github.com/ProtonMail/gluon"
-	_ "github.com/anishathalye/porcupine"
+	"fmt"
+	"os"
+
+	"verif/checks"
+	"verif/engine/explore"
+	"verif/engine/report"
+	_ "verif/scen/mbox"
 )
 
-func main() {}
+func main() {
+	if len(os.Args) < 2 {
+		fmt.Fprintln(os.Stderr, "usage: vcheck <property>|worker")
+		os.Exit(2)
+	}
+	switch os.Args[1] {
+	case "worker":
+		explore.WorkerMain()
+		return
+	case "debug":
+		os.Exit(checks.DebugPath(os.Args[2], os.Args[3], os.Args[4]))
+	}
+	tier := report.Tier()
+	fn, ok := checks.Registry[os.Args[1]]
+	if !ok {
+		fmt.Fprintln(os.Stderr, "unknown check", os.Args[1])
+		os.Exit(2)
+	}
+	os.Exit(fn(tier))
+}
